@@ -301,3 +301,24 @@ Definition rule_of_options (path : name) (o : log_options) : config :=
   else mkcfg Daily path backup_file_delimiter (o_keep_days o) (o_gzip o) (o_gzip o) 0 0.
 
 Definition rule_of_config (path : name) (u : setup) : config := rule_of_options path (options_of_setup u).
+
+(* ---------------------------------------------------------------- symbolic links
+   A directory entry is a regular file or a symbolic link to a file kept elsewhere (`store`: target id |->
+   file; a dangling link reads as nothing). os.Rename and os.Remove act on the ENTRY (rotate :350 renames the
+   link, not its target); os.Stat/Open/ReadFile see the target; os.Create on a name that is absent makes a new
+   regular file (rotate :361 after the rename). `view` is the directory as open() sees it -- the fsys above. *)
+Inductive entry := Reg (f : file) | Sym (t : nat).
+Definition lfsys := list (name * entry).
+
+Definition resolve (store : list (nat * file)) (e : entry) : file :=
+  match e with
+  | Reg f => f
+  | Sym t => match alookup Nat.eqb t store with Some f => f | None => ([], 0%nat) end
+  end.
+
+Definition view (store : list (nat * file)) (L : lfsys) : fsys := map (fun ke => (fst ke, resolve store (snd ke))) L.
+
+Definition l_rename (o n : name) (L : lfsys) : lfsys :=
+  match alookup name_eqb o L with Some e => aset name_eqb n e (aremove name_eqb o L) | None => L end.
+Definition l_remove (n : name) (L : lfsys) : lfsys := aremove name_eqb n L.
+Definition l_create (n : name) (L : lfsys) : lfsys := aset name_eqb n (Reg ([], 0%nat)) L.   (* n absent *)
